@@ -33,8 +33,9 @@ def _components(mask, value):
     return comps
 
 
-def sanitize(mask):
-    """largest edge-connected component, corner-only contacts filled in; never empty"""
+def sanitize(mask, keep_all=False):
+    """largest edge-connected component (all components when keep_all: islands inside holes are separate bodies),
+    corner-only contacts filled in; never empty"""
     mask = np.array(mask, dtype=bool)
     if mask.ndim != 2 or mask.size == 0:
         mask = np.ones((1, 1), dtype=bool)
@@ -44,7 +45,7 @@ def sanitize(mask):
     comps = _components(mask, True)
     big = max(comps, key=len)
     out = np.zeros_like(mask)
-    for a, b in big:
+    for a, b in ([c for comp in comps for c in comp] if keep_all else big):
         out[a, b] = True
     changed = True
     while changed:
@@ -82,14 +83,33 @@ def analyse(mask, xs, ys):
             cim = True
     filled = np.argwhere(mask)
     bb = (np.ptp(filled[:, 0]) + 1) * (np.ptp(filled[:, 1]) + 1)
-    return {"holes": len(holes), "hole_nonconvex": nonconvex, "hole_centroid_in_material": cim,
+    # nesting depth of the horizontal section: alternate flood fills from the outside (empty, filled, empty ...)
+    depth, reach, val = 0, np.zeros_like(pad), False
+    front = {(0, 0)}
+    seen = np.zeros_like(pad)
+    cur = [(0, 0)]
+    seen[0, 0] = True
+    while cur:
+        nxt = []
+        stack = list(cur)
+        while stack:
+            a, b = stack.pop()
+            for c, d in ((a + 1, b), (a - 1, b), (a, b + 1), (a, b - 1)):
+                if 0 <= c < pad.shape[0] and 0 <= d < pad.shape[1] and not seen[c, d]:
+                    seen[c, d] = True
+                    (stack if pad[c, d] == val else nxt).append((c, d))
+        if nxt:
+            depth += 1
+            val = not val
+        cur = nxt
+    return {"depth": depth, "holes": len(holes), "hole_nonconvex": nonconvex, "hole_centroid_in_material": cim,
             "outline_nonconvex": bool(len(filled) + sum(len(h) for h in holes) != bb)}
 
 
 def build(spec):
     """spec: {"mask": rows of 0/1 (first index = x), "xs": column widths, "ys": row widths, "h": height, "diag": int}
     -> V (float64, integer valued), F, info"""
-    mask = sanitize(spec["mask"])
+    mask = sanitize(spec["mask"], keep_all=bool(spec.get("multi")))
     m, n = mask.shape
     xs = [max(1, int(v)) for v in (list(spec.get("xs") or []) + [1] * m)[:m]]
     ys = [max(1, int(v)) for v in (list(spec.get("ys") or []) + [1] * n)[:n]]
@@ -183,9 +203,31 @@ def _outline(kind, W, H, t):
     return g
 
 
+def _nested(rings, ex, ey, solid_core, shift):
+    """concentric rectangular rings one cell thick, one cell apart: frame > hole > island (> hole in island > ...)"""
+    core = 1 if solid_core else 3
+    W = 4 * (rings - 1) + core + ex
+    H = 4 * (rings - 1) + core + ey
+    g = np.zeros((W, H), dtype=bool)
+    for r in range(rings):
+        o = 2 * r
+        a0, a1, b0, b1 = o, W - 1 - o, o, H - 1 - o
+        if r == rings - 1 and solid_core:
+            g[a0 : a1 + 1, b0 : b1 + 1] = True
+        else:
+            g[a0, b0 : b1 + 1] = g[a1, b0 : b1 + 1] = True
+            g[a0 : a1 + 1, b0] = g[a0 : a1 + 1, b1] = True
+    if shift and rings == 2 and ex >= 2:
+        # move the island off centre inside the (wider) hole
+        inner = g[2:-2, 2:-2].copy()
+        g[2:-2, 2:-2] = False
+        g[2 : 2 + inner.shape[0] - 1, 2:-2] = inner[1:, :] if inner.shape[0] > 1 else inner
+    return g
+
+
 @st.composite
-def cells_spec(draw):
-    fam = draw(st.sampled_from(["u_hole", "u_hole", "u_hole", "ring_tongue", "ring_tongue", "outline", "random", "ring_in_outline"]))
+def cells_spec(draw, families=None):
+    fam = draw(st.sampled_from(families or ["u_hole", "u_hole", "u_hole", "ring_tongue", "ring_tongue", "outline", "random", "ring_in_outline", "nested"]))
     W = draw(st.integers(4, 7))
     H = draw(st.integers(4, 7))
     if fam == "u_hole":
@@ -201,6 +243,10 @@ def cells_spec(draw):
         if draw(st.booleans()):  # non-convex outline as well: an arm
             g = np.pad(g, ((0, 2), (0, 0)))
             g[-2:, : 1 + draw(st.integers(0, 1))] = True
+    elif fam == "nested":
+        g = _nested(draw(st.sampled_from([2, 2, 2, 3])), draw(st.integers(0, 1)), draw(st.integers(0, 1)), draw(st.booleans()), False)
+        if draw(st.booleans()):
+            g = g.T
     elif fam == "ring_tongue":
         g = _ring_tongue(W, H, draw(st.integers(0, 3)), draw(st.integers(0, 5)), draw(st.integers(0, 5)), draw(st.booleans()))
     elif fam == "outline":
@@ -218,10 +264,13 @@ def cells_spec(draw):
         if draw(st.booleans()):
             g[0, :] = g[-1, :] = True
             g[:, 0] = g[:, -1] = True
-    for _ in range(draw(st.integers(0, 2))):
+    for _ in range(draw(st.integers(0, 2)) if fam != "nested" else 0):
         i, j = draw(st.integers(0, g.shape[0] - 1)), draw(st.integers(0, g.shape[1] - 1))
         g[i, j] = not g[i, j]
     uniform = draw(st.booleans())
     xs = [1 if uniform else draw(st.integers(1, 3)) for _ in range(g.shape[0])]
     ys = [1 if uniform else draw(st.integers(1, 3)) for _ in range(g.shape[1])]
-    return {"mask": g.astype(int).tolist(), "xs": xs, "ys": ys, "h": draw(st.sampled_from([2, 2, 3, 4, 6])), "diag": draw(st.integers(0, 3))}
+    out = {"mask": g.astype(int).tolist(), "xs": xs, "ys": ys, "h": draw(st.sampled_from([2, 2, 3, 4, 6])), "diag": draw(st.integers(0, 3))}
+    if fam == "nested":
+        out["multi"] = True
+    return out
